@@ -447,9 +447,25 @@ def opCompound (j : Json) : R Json := do
   let ws ← (wsJ.zipIdx).mapM fun (m, k) => asMemberWcs k m
   let mapping ← field j "mapping" >>= asList asNat
   let pix ← field j "pixels" >>= asList (asList asRat)
+  -- members' pixel bounds (pixel order), when the request carries them: null or [[lo, hi], ...] per member
+  let mb ← match optField j "bounds" with
+    | none => pure none
+    | some b => do
+      let l ← asList (fun x => match x with
+        | Json.null => pure none
+        | y => (asList (fun pr => do
+            let a ← asArr pr
+            match a with
+            | [lo, hi] => do pure ((← asRat lo), (← asRat hi))
+            | _ => .error "expected [lo, hi]") y).map some) b
+      pure (some l)
+  let boundsBad := match mb with
+    | some l => (match compoundBounds l (effectiveMapping ws mapping) with | .error _ => true | .ok _ => false)
+    | none => false
   match compound ws mapping with
   | .error e => pure (errJson e)
   | .ok c =>
+    if boundsBad then pure (errJson .valueError) else
     -- world_to_pixel assembly from the pixel values each member's inverse returned
     let memberPix ← match optField j "memberPixels" with
       | none => pure []
